@@ -340,14 +340,15 @@ pub fn promote<ID: Eq + Hash, C: Conditions>(
     access: Access<C>,
 ) -> Result<GroupMembersState<ID, C>, GroupMembershipError<ID>> {
     if let Some(member) = state.members.get(&promoted) {
-        // No action is required if the member is already set to the highest access level.
-        let new_state = if member.is_manager() {
-            state
+        // No modification is required if the member is already set to the highest access level:
+        // keep their current access, the actor and member checks are still performed.
+        let access = if member.is_manager() {
+            member.access.clone()
         } else {
-            modify(state, promoter, promoted, access)?
+            access
         };
 
-        Ok(new_state)
+        modify(state, promoter, promoted, access)
     } else {
         Err(GroupMembershipError::UnrecognisedMember(promoted))
     }
@@ -368,14 +369,15 @@ pub fn demote<ID: Eq + Hash, C: Conditions>(
     access: Access<C>,
 ) -> Result<GroupMembersState<ID, C>, GroupMembershipError<ID>> {
     if let Some(member) = state.members.get(&demoted) {
-        // No action is required if the member is already set to the lowest access level.
-        let new_state = if member.is_puller() {
-            state
+        // No modification is required if the member is already set to the lowest access level:
+        // keep their current access, the actor and member checks are still performed.
+        let access = if member.is_puller() {
+            member.access.clone()
         } else {
-            modify(state, demoter, demoted, access)?
+            access
         };
 
-        Ok(new_state)
+        modify(state, demoter, demoted, access)
     } else {
         Err(GroupMembershipError::UnrecognisedMember(demoted))
     }
